@@ -89,6 +89,7 @@ func TestVerifC07Child(t *testing.T) {
 	mode := os.Getenv("VERIF_C07_MODE")
 	dir := os.Getenv("VERIF_C07_DIR")
 	*useProtobuf = c.Protobuf
+	robust.MessageOffset = 0
 	os.MkdirAll(dir, 0700)
 	fsm, err := c02Open(dir, mode == "run1")
 	if err != nil {
